@@ -9,8 +9,11 @@ let check (fields : sexp list) : verdict * string option =
   let panicked = atom (field1 "panic" fields) = "1" in
   let m = int_of_z (parse_parameters_len q) in
   let cross = Some (Printf.sprintf "(hx \"%s\", %d%%Z)" (hex_of_bytes q) m) in
+  let alloc = match List.filter_map (function L (A "alloc" :: A a :: _) -> Some a | _ -> None) fields with a :: _ -> z_of_atom a | [] -> z_of_int 0 in
   if not (oracle_C20 q (z_of_int len) panicked) then
     (OracleFail (Printf.sprintf "impl len=%d panic=%b model=%d" len panicked m), cross)
+  else if not (oracle_C20_alloc q alloc) then
+    (OracleFail (Printf.sprintf "impl allocated %s bytes for a %d-byte query (budget 8 MiB + 1 KiB per byte)" (string_of_z alloc) (List.length q)), cross)
   else if len <> m then (Diff (Printf.sprintf "impl len=%d model len=%d" len m), cross)
   else (Ok_, cross)
 
